@@ -67,3 +67,11 @@ resolve = Contract('resolve_path_parts', setup=rp_setup, requires=rp_requires, e
                    loops={0: Loop(rp_inv, heap=[('StrList', 'elems'), ('StrList', 'len')])},
                    local_types=dict(ret=REF(StrList)), variants=['any', 'dotfree'])
 CONTRACTS = {'resolve_path_parts': resolve}
+
+
+def make_engine(repo):
+    from pyvc.engine import Engine
+    eng = Engine(repo, FILE, classes=CLASSES, contracts=CONTRACTS)
+    for c in ALL:
+        eng.register_class(c)
+    return eng
